@@ -8,7 +8,7 @@ CLAIMED = {
  "C18": dict(
    category="proof",
    text="Every item_property accessor (getter/setter/deleter, for each declaration read from the real classes) and every SMChart key guard is symbolically executed from the working tree's AST on an arbitrary mapping state and proved (SMT, unsat) to meet a postcondition that is an equation over the whole ordered mapping, so other keys, values and insertion order are covered; histories are covered by invariance of the representation invariant. Proof-level because the functions are loop-free and every path obligation is discharged for all inputs.",
-   note="Trusted: OrderedDict as the ordered-map theory (pyvc/omap.py), Python descriptor/MRO dispatch as implemented by the executor, str.upper/lower uninterpreted with CPython-evaluated constant instances, the home-grown VC generator, z3/cvc5. 'serialization sees the mapping' is carried by C01/C02's serializer contracts.",
+   note="Trusted: OrderedDict as the ordered-map theory (pyvc/omap.py), Python descriptor/MRO dispatch as implemented by the executor, str.upper/lower uninterpreted with CPython-evaluated constant instances, the home-grown VC generator, z3/cvc5. 'serialization sees exactly the mapping' is proved by the four serializer units (SMChart / SSCChart / BaseSimfile.serialize for SM and SSC, shared with C01/C02/C04), which are part of this check. Thorough tier adds the T-OD probe against collections.OrderedDict and the history search of the real classes (depth 3).",
    technique="contract-based deductive verification: sidecar contracts on the real AST, VC generation by symbolic execution, z3 (cvc5 on unknown)",
    design_ref="6/C18"),
 }
@@ -61,7 +61,7 @@ CLAIMED["C04"] = dict(
    text="Composition over the proved contracts of C01-C03 (their units are re-run here): lemma LOADED-IN-DOMAIN shows that whatever the loaders produce is in the serializers' domain (upper-case keys, str-or-None values, SM chart fields equal to their own strip, re-joinable ATTACKS/DISPLAYBPM), the serializers never raise on that domain and emit the prescribed parameters, lemma RT-elements shows the loading rules give each emitted element back, and the serialization is a function of the simfile value, so a second save is byte-identical. Both lemmas are discharged by SMT; the chaining of the four steps is an argument in DESIGN.md.",
    note=_SER_NOTE + " Proviso of the statement: every SSC chart contains note data.",
    technique="contract-based deductive verification: SMT lemmas over the proved serializer/loader contracts", design_ref="6/C04")
-_FS_NOTE = "Trusted: the ghost file system contract T-FS (NativeOSFS and any PyFilesystem are assumed to satisfy it; this family cannot observe bytes on a disk), codecs T-CODEC, callee contracts for load (C03) and serialize/__str__ (C01/C02), contextlib.contextmanager semantics, VC generator, z3/cvc5."
+_FS_NOTE = "Trusted: the ghost file system contract T-FS (NativeOSFS and any PyFilesystem are assumed to satisfy it; this family cannot observe bytes on a disk), codecs T-CODEC, callee contracts for load (C03) and serialize/__str__ (C01/C02), contextlib.contextmanager semantics, VC generator, z3/cvc5. The ghost store is one array for every filesystem object; that each operation goes through the filesystem the caller passed is a separate frame obligation at every open/listdir/isdir/exists."
 CLAIMED["C05"] = dict(
    category="proof",
    text="open_with_detected_encoding is proved for an arbitrary list of encodings by a loop invariant (every encoding tried so far fails to decode; the returned encoding is the first that decodes; exactly that decoded text is loaded; UnicodeDecodeError iff the list is non-empty and none decodes), open(encoding=e) as the one-element case; mutate is loop-free and every path is enumerated: for each of {input, other output} x {backup, none} x {SM, SSC} with an arbitrary edit of the yielded simfile, the output file is textwrite(enc, SER(simfile at exit)), the backup is textwrite(enc, SER(simfile at entry)), the input is untouched when an output name is given, no other path changes (frame over the ghost file system with an arbitrary other path), and a clashing backup name is refused with the file system unchanged.",
@@ -92,10 +92,10 @@ CLAIMED["C09"] = dict(
    text="Deductive proof (all inputs) that the counting functions pass exactly the documented options to group_notes and return the number of groups with at least the documented minimum (steps 1, jumps 2, hands 3 over tap / hold head / roll head / lift joined per beat; holds and rolls: {head, TAIL}, joined, the caller's orphan policies), that count_grouped_notes counts the groups of at least `minimum` notes and count_mines the notes of type MINE. group_notes itself (type filter, head/tail joining with its buffering, same-beat modes, which orphan an exception names) is a bounded stand-in: exhaustive comparison with a declarative reading of the statement over every stream of the 2-column grid and every option combination, run in 12 parallel slices - labelled bounded, hence level 'other'.",
    note="Trusted: group_notes as a function of its six arguments at the counters' call sites, sum(cond(x) for x in xs) as the count of x with cond(x), generator laziness ignored, VC generator, z3/cvc5. The buffering state machine of join_heads_to_tails_ was not brought under a loop invariant (DESIGN 6/C09).",
    technique="contract-based deductive verification of the counters (call-site obligations) with a bounded exhaustive stand-in for group_notes", design_ref="6/C09")
-_ENG_NOTE = "Trusted: bisect's local-boundary contract, heapq.merge, A-FLOAT (floats are reals; the 1e-9 s accuracy clause is not decided), SM_inv for the state list in the look-up units, VC generator, z3/cvc5. _retime_events (merge order, building the state list, establishing SM_inv) was not brought under a loop invariant; it is exercised only by the bounded stand-in. _coalesce_warps is proved (alternating segments covering exactly the union of the warps)."
+_ENG_NOTE = "Trusted: bisect's local-boundary contract, heapq.merge (as many elements as its inputs, each from some input, in order when every input is sorted), A-FLOAT (floats are reals; the 1e-9 s accuracy clause is not decided), VC generator, z3/cvc5. _retime_events is under contract (initial state, the seven merge inputs under their tags, fold invariant states == fold(step, merged, i), look-up tables as exact projections; lemmas step-keeps-domain and step-time-monotone): SM_inv, which the look-up units start from, is thereby reduced to an induction whose step cases are discharged obligations; the induction itself is argued outside the solver. _coalesce_warps is proved (alternating segments covering exactly the union of the warps). Thorough tier adds the encoder-vs-CPython guard on time_until / beats_until / TaggedEvent.__lt__."
 CLAIMED["C11"] = dict(
    category="other",
-   text="Deductive proof (all inputs) of the EventTag order (closed term), TaggedEvent.__lt__ = (beat, tag) lexicographic, TimingState.time_until = the statement's formula, TimingStateMachine.advance = the recurrence step, time_at / bpm_at = extrapolation from the last state at or before (beat, tag), and _coalesce_warps = strictly alternating WARP/WARP_END pairs covering exactly the union of the warp segments (loop invariant with universally quantified conjuncts, proved by single-instance skolemisation). The identity 'recurrence built by _retime_events == the statement's integral timeline', monotonicity, offset shift and redundant-BPM invariance are a bounded stand-in: the real engine against an exact-rational evaluation of the statement on all placements of up to 3 events on a beat grid, every quarter beat, every tag - labelled bounded, hence level 'other'.",
+   text="Deductive proof (all inputs) of the EventTag order (closed term), TaggedEvent.__lt__ = (beat, tag) lexicographic, TimingState.time_until = the statement's formula, TimingStateMachine.advance = the recurrence step, time_at / bpm_at = extrapolation from the last state at or before (beat, tag), and _coalesce_warps = strictly alternating WARP/WARP_END pairs covering exactly the union of the warp segments (loop invariant with universally quantified conjuncts, proved by single-instance skolemisation). _retime_events builds the state list as the fold of that step over the merged events and the look-up tables as its exact projections (loop invariant). The end-to-end identity 'engine == the statement's integral timeline', monotonicity, offset shift and redundant-BPM invariance are a bounded stand-in: the real engine against an exact-rational evaluation of the statement on all placements of up to 3 events on a beat grid (every quarter beat, every tag) and on seven non-dyadic / third-of-a-beat configurations probed on every tick - labelled bounded, hence level 'other'.",
    note=_ENG_NOTE, technique="contract-based deductive verification of the state-machine step and look-ups, with a bounded exhaustive stand-in for the timeline identity", design_ref="6/C11")
 CLAIMED["C12"] = dict(
    category="other",
@@ -103,7 +103,7 @@ CLAIMED["C12"] = dict(
    note=_ENG_NOTE, technique="contract-based deductive verification (call-site precondition of bisect, look-up postconditions) with a bounded exhaustive stand-in", design_ref="6/C12")
 CLAIMED["C13"] = dict(
    category="other",
-   text="Deductive proof for every note stream (loop invariant) that time_notes yields exactly what the statement prescribes per note, with the engine abstracted by callee contracts, and that hittable() is False exactly when the state in force after everything on that beat lies inside a warp and no stop/delay ends on that beat. That this reading of the state list equals 'inside the union of warp segments and no stop or delay on that beat' is a bounded stand-in on every tick of every small configuration - hence level 'other'.",
+   text="Deductive proof for every note stream (loop invariant) that time_notes yields exactly what the statement prescribes per note, with the engine abstracted by callee contracts, and that hittable() is False exactly when the state in force after everything on that beat lies inside a warp and no stop/delay ends on that beat. That this reading of the state list equals 'inside the union of warp segments and no stop or delay on that beat' is a bounded stand-in on every tick of every small configuration, and time_notes itself is also run on real one- and two-player streams against the statement (bounded) - hence level 'other'.",
    note=_ENG_NOTE, technique="contract-based deductive verification (loop invariant, callee contracts, look-up postcondition) with a bounded exhaustive stand-in", design_ref="6/C13")
 CLAIMED["C08"] = dict(
    category="other",
